@@ -150,7 +150,7 @@ func TestC05(t *testing.T) {
 		res := runSession(t, SrvOpts{Root: w.Root, AllowWrite: true}, m, full, d)
 		r.Transition(int64(len(res.Steps)))
 		r.Eval(1)
-		key := sprintf("on|%d|%d|", d.Chunk, d.MaxRead) + strings.Join(reqStrings(seq), ",")
+		key := sprintf("on|%d|%d|%v|", d.Chunk, d.MaxRead, d.Pieces) + strings.Join(reqStrings(seq), ",")
 		r.State(key)
 		r.Nontrivial(key)
 		for _, st := range res.Steps {
@@ -205,6 +205,23 @@ func TestC05(t *testing.T) {
 			}
 			seq := append([]Req{mkReq(opCreateFile, pair[0]), wrReq(payloads[2][:3000]), mkReq(opCreateFile, pair[1]), wrReq(payloads[3][:2000]), wrReq([]byte("tail"))}, tail...)
 			runB(seq, Delivery{})
+		}
+	}
+	// payloads that reach the server in pieces of very different sizes (a few bytes, then more than a transfer buffer or a
+	// coalescing threshold, then a few bytes again): stored bytes must not depend on how the stream was cut
+	for _, n := range []int{40000, 70000, 131073} {
+		big := make([]byte, n)
+		for i := range big {
+			big[i] = byte(i*7 + i>>8 + n)
+		}
+		for _, pc := range [][]int{{16 + 1}, {16 + 100, 40000}, {16 + 32767, 32768}, {16 + 1, 32768, 1}, {16 + 4095, 4096, 4097}, {16 + 65535, 1}, {16 + 65536, 1}, {16 + n - 1}, {16, 1, 2, 3, 65536}, {16 + 1000, 1000, 65537, 1000}, {3, 13, 5, 33000}} {
+			for _, tail := range [][]Req{nil, {wrReq([]byte("tail"))}} {
+				caseIdx++
+				if !r.Mine(caseIdx) {
+					continue
+				}
+				runB(append([]Req{mkReq(opCreateFile, "/w/new.bin"), wrReq(big)}, tail...), Delivery{Pieces: pc})
+			}
 		}
 	}
 	// create -> write x2 -> (second create | delete | nothing) with every payload pair and chunking
